@@ -132,6 +132,8 @@ def numbers(doc, secnumdepth=2):
                     else:
                         m.step('equation')
                         out.append(('eqnrow', m.the('equation'), row.get('label')))
+                if b.get('trail'):
+                    m.step('equation')      # the empty row after a trailing \\ takes a number of its own
             elif t == 'float':
                 def cap():
                     if b['caption'] is not None:
